@@ -161,7 +161,14 @@ def run_unit(args):
     def handle(b):
         stats["cases"] += 1
         isas.set_mode(cpu, mode)
-        for (phase, hook, mn, modestr, detail) in check_bytes(cpu, b, fmts, psize, stats):
+        try:
+            with core.time_limit(CASE_TIME_LIMIT):
+                res = list(check_bytes(cpu, b, fmts, psize, stats))
+        except core.TimeLimit:
+            stats["timeouts"] = stats.get("timeouts", 0) + 1
+            setattr(cpu.disassemble, "_disassembler__i", None)
+            res = [("timeout", "-", "-", "-", "decoding/formatting/executing %s did not finish within %d s" % (b.hex(), CASE_TIME_LIMIT))]
+        for (phase, hook, mn, modestr, detail) in res:
             sig = make_sig(isa, mname, phase, hook, mn, modestr)
             fails.append(Failure(sig, detail, {"isa": isa, "mode": mode, "bytes": b.hex()}, rank=len(b)).to_json())
 
@@ -181,6 +188,13 @@ def run_unit(args):
     return {"fails": fails, "stats": stats}
 
 
+CASE_TIME_LIMIT = 20     # seconds for all phases of one byte string
+
+
+# ISAs whose shortest instructions are one or two bytes long: all 65536 two-byte prefixes are swept (thorough)
+SWEEP16_ISAS = ("x86", "x64", "z80", "gb", "w65c02", "msp430", "pic18", "sh2", "v850", "tricore", "dwarf", "wasm", "armv7")
+
+
 def units(tier):
     U = []
     info = []
@@ -194,7 +208,7 @@ def units(tier):
         for lo in range(0, n, step):
             U.append((isa, mode, lo, min(n, lo + step), tier, False))
         info.append((isa, isas.mode_name(mode), n))
-        if tier == "thorough":
+        if tier == "thorough" and isa in SWEEP16_ISAS:
             for lo in range(0, 65536, 4096):
                 U.append((isa, mode, lo, lo + 4096, tier, True))
     return U, info
@@ -234,7 +248,7 @@ def run(tier, seed):
                 "x86/x64 with the Mod x RM product, SIB menu and prefix menu, truncations; each distinct byte string is decoded, "
                 "checked for well-formedness, rendered with every formatter of the module, tokenised, pickled and executed on an "
                 "empty mapper; non-trivial = byte strings that decoded to an instruction"
-                + ("; plus all 65536 two-byte prefixes per mode" if tier == "thorough" else ""),
+                + ("; plus all 65536 two-byte prefixes per mode of the ISAs with 1/2-byte instructions" if tier == "thorough" else ""),
         "isa_modes": [{"isa": a, "mode": b, "specs": c} for a, b, c in info],
         "specs": tot["specs"], "decoded": tot["decoded"], "no_instruction": tot["none"], "executed": tot["executed"],
         "samples": [{"isa": "x64", "bytes": "4801d8"}, {"isa": U[0][0], "unit": list(U[0][:4])}],
